@@ -78,14 +78,15 @@ def merge_only(db, ctx):
 
 def _arg_src(e):
     """(`begin` | `end - 1` | other, accessor) for expressions like path[begin].begin_bytes"""
-    e = peel_casts(e)
+    from ..db import deref_all
+    e = deref_all(e)
     acc = None
     if e.get("k") == "MethodCall":
         acc = e["method"]
-        e = peel(e["recv"])
+        e = deref_all(e["recv"])      # `let first = &path[begin]; first.begin()` is path[begin].begin()
     elif e.get("k") == "Field":
         acc = e["name"]
-        e = peel(e["e"])
+        e = deref_all(e["e"])
     if e.get("k") == "Index":
         return render(e["i"], x=True).replace(" ", ""), acc
     return None, acc
@@ -113,8 +114,13 @@ def merged_fields(db, ctx):
         # string concatenation loops
         fields = set()
         for n, (it, pat, body), ps in _loops(f):
-            src = render(it).replace(" ", "")
-            in_order = "path[ops::Range{start:begin,end:end}].iter()" in src or ("start:begin" in src and "end:end" in src and ".rev()" not in src)
+            from ..loops import chain as lchain
+            from ..inline import range_bounds
+            from ..db import deref_all
+            ch, base = lchain(db, f, it)
+            base = deref_all(base)
+            in_order = {m for m, _ in ch} <= {"iter"} and base.get("k") == "Index" and local_name(base["e"]) == "path" and \
+                range_bounds(base["i"]) == ("begin", "end")
             for p, _ in walk(body):
                 if p.get("k") == "MethodCall" and p.get("method") == "push_str":
                     tgt = local_name(p["recv"])
@@ -124,6 +130,17 @@ def merged_fields(db, ctx):
         for tgt, fn_, in_order in sorted(fields, key=str):
             ok = in_order and tgt is not None and fn_ is not None and (tgt == fn_ or (tgt == "norm" and fn_ == "normalized_form"))
             ctx.ob("%s|concat(%s)" % (nm, tgt), ok, "%s: `%s` is built by pushing each node's .%s in order over path[begin..end]: %s" % (nm, tgt, fn_, ok), fn=f)
+    # concat_nodes: the merged word keeps the POS of the FIRST merged node (JoinNumericPlugin::concat checked exactly that node for the numeral POS)
+    f = db.one("concat_nodes", None)
+    got = None
+    from ..inline import nf as _nf
+    for n, _ in walk(f.hir):
+        if n.get("k") == "Struct" and (n.get("path") or "").endswith("WordInfoData"):
+            fl = {x["name"]: x["e"] for x in n["fields"] if "e" in x}
+            if "pos_id" in fl:
+                got = _nf(fl["pos_id"])
+    ctx.ob("concat_nodes|pos=first-node", got == "path[begin].word_info().pos_id()",
+           "merged node takes pos_id from `%s` (must be path[begin].word_info().pos_id(): the node whose POS the numeral plugin checked)" % got, fn=f)
     f = db.one("concat_oov_nodes", None)
     ok = False
     for n, _ in walk(f.hir):
